@@ -5068,7 +5068,7 @@ EmitOp_MemBaseNoImm_Rn5:
   goto EmitOp;
 
 EmitOp_MemBaseIndex_Rn5_Rm16:
-  if (!rm_rel->as<Mem>().has_base_reg()) {
+  if (!check_mem_base(rm_rel->as<Mem>())) {
     goto InvalidAddress;
   }
 
